@@ -56,6 +56,7 @@ type vfRawResp struct {
 	HeadAt     time.Duration // instant the complete head was available (-1 never)
 	FirstByte  time.Duration
 	ClosedByPeer bool
+	Interim      []int
 }
 
 func (r *vfRawResp) complete() bool { return r.Resp != nil && r.HeadErr == nil && r.BodyErr == nil }
@@ -122,6 +123,10 @@ func (f *vfFront) rawExchange(clientIP string, chunks [][]byte, pauseMs []int, m
 	br := bufio.NewReader(tee)
 	req := &http.Request{Method: method}
 	resp, err := http.ReadResponse(br, req)
+	for err == nil && resp.StatusCode >= 100 && resp.StatusCode < 200 && resp.StatusCode != 101 {
+		out.Interim = append(out.Interim, resp.StatusCode) // interim responses are relayed or not; the final one counts
+		resp, err = http.ReadResponse(br, req)
+	}
 	if err != nil {
 		out.HeadErr = err
 	} else {
